@@ -11,6 +11,7 @@ mod reschain;
 mod rfc1982;
 mod slurm;
 mod urialg;
+mod x509time;
 
 fn main() {
     common::quiet_panics();
@@ -29,6 +30,9 @@ fn main() {
         ("replay", "prefixlaws") => prefixlaws::replay(rest),
         ("replay", "urialg") => urialg::replay(rest),
         ("replay", "slurm") => slurm::replay(rest),
+        ("replay", "x509time") => x509time::replay(rest),
+        ("native", "x509time") => x509time::native(rest),
+        ("drive", "x509time") => x509time::drive(rest),
         ("drive", "slurm") => slurm::drive(rest),
         ("drive", "urialg") => urialg::drive(rest),
         ("drive", "prefixlaws") => prefixlaws::drive(rest),
